@@ -594,6 +594,15 @@ func (s *c13State) drive(c *c13Client, kind svc.Kind, callID, idStr string, id u
 			}
 			take(m)
 		}
+		if id%3 == 0 {
+			// some callers ask once more after the end (a select loop that polls
+			// Receive, a helper that drains "until error" twice): the answer must
+			// stay an error, and whatever the library does for it must not disturb
+			// the calls around this one
+			if m, err := st.Receive(); err == nil {
+				o.err = fmt.Errorf("harness: Receive after the end of the stream returned message id=%d", m.Id)
+			}
+		}
 		<-done
 		o.header, o.trailer = st.ResponseHeader(), st.ResponseTrailer()
 		_ = st.CloseResponse()
